@@ -55,10 +55,10 @@ class AbstractConcept(metaclass=ABCMeta):
         if self.support != other.support:
             return False
 
-        return self.extent_i == other.extent_i
+        return sorted(self.extent_i) == sorted(other.extent_i)
 
     def __hash__(self):
-        return hash(self.extent_i)
+        return hash(tuple(sorted(self.extent_i)))
 
     def __le__(self, other: 'AbstractConcept'):
         """A concept is smaller than the `other concept if its extent is a subset of extent of `other concept"""
